@@ -45,3 +45,45 @@ func ZZ_C04_rp(a []int) {
 	zzAssert((p == nil) != (err == nil), "ReadPacket must return exactly one of packet and error")
 	zzEmitU("err", zzB2U(err != nil))
 }
+
+// ZZ_C04_window (T-mode): a valid frame of shape a[1:] in which a window of
+// a[0] consecutive body bytes, at every offset (one offset per path), is
+// replaced by unconstrained bytes — every length field raised or lowered to
+// every value at once, type nibble and remaining length left as they are.
+func ZZ_C04_window(a []int) {
+	w := a[0]
+	abs := zzGen(zzShapeOf(a[1:]))
+	body := zzRefBody(abs)
+	b0 := byte(abs.typ)<<4 | abs.hflags
+	if len(body) < w {
+		return
+	}
+	off := int(zzConc(uint64(zzInt("off", 0, len(body)-w))))
+	win := zzBytes("win", w)
+	copy(body[off:], win)
+	p, err := ReadPacket(&zzContig{b: zzFrame(b0, body)})
+	zzReach("window")
+	zzAssert((p == nil) != (err == nil), "ReadPacket must return exactly one of packet and error")
+	zzEmitU("off", uint64(off))
+	zzEmitU("err", zzB2U(err != nil))
+}
+
+// ZZ_C04_prefix: every prefix of a valid frame of shape a, with the remaining
+// length left as it is (the stream simply ends) and adjusted to the shortened
+// size.
+func ZZ_C04_prefix(a []int) {
+	abs := zzGen(zzShapeOf(a))
+	body := zzRefBody(abs)
+	b0 := byte(abs.typ)<<4 | abs.hflags
+	f := zzFrame(b0, body)
+	cut := int(zzConc(uint64(zzInt("cut", 0, len(f)))))
+	p, err := ReadPacket(&zzContig{b: f[:cut]})
+	zzReach("prefix")
+	zzAssert((p == nil) != (err == nil), "ReadPacket must return exactly one of packet and error")
+	if cut <= len(body) {
+		p2, err2 := ReadPacket(&zzContig{b: zzFrame(b0, body[:cut])})
+		zzAssert((p2 == nil) != (err2 == nil), "ReadPacket must return exactly one of packet and error")
+	}
+	zzEmitU("cut", uint64(cut))
+	zzEmitU("err", zzB2U(err != nil))
+}
